@@ -747,3 +747,58 @@ Proof.
   destruct (g_run (c_db c) t now (round_ops c t now r) log) as [[t2 now2] log2]. cbn in Hg.
   destruct Hinv as (A & B & C). split; [congruence|auto].
 Qed.
+
+(* ---------- reserved for as long as acknowledged (the clause ack_reserved of mon_C05 / mon_C07 on the model) ---------- *)
+
+Lemma nth_error_set_until t : forall p u e, nth_error t p = Some e ->
+  nth_error (set_until t p u) p = Some {| e_ip := e_ip e; e_duid := e_duid e; e_until := u; e_perm := e_perm e |}.
+Proof.
+  induction t as [|x r IH]; intros p u e H; [destruct p; discriminate|].
+  destruct p as [|q]; cbn in *.
+  - injection H as ->. reflexivity.
+  - apply IH. exact H.
+Qed.
+
+(* a successful UpdateClient leaves an entry for exactly that address and client that runs until now + ttl *)
+Theorem update_reserves x now ip d ttl t t' n : unique_live now t -> to_uip x ip = Some n ->
+  t_update_client x now ip d ttl t = (true, t') ->
+  exists p e, nth_error t' p = Some e /\ e_ip e = n /\ e_duid e = d /\ e_until e = (now + ttl)%Z.
+Proof.
+  intros U Hn H. pose proof (t_update_spec x now ip d ttl t true t' U H) as S. rewrite Hn in S.
+  destruct S as [(p & e & (Hp & _) & Hi & Hd & _ & ->)|[(_ & _ & -> & _)|(_ & _ & Hf & _)]]; [| |discriminate].
+  - exists p. eexists. split; [apply nth_error_set_until; exact Hp|]. cbn. auto.
+  - exists (length t), (new_entry n d (now + ttl)%Z false). split; [|cbn; auto].
+    rewrite nth_error_app2, Nat.sub_diag by lia. reflexivity.
+Qed.
+
+(* an accepted round whose single reply is not the NAK: it is the ACK for the client's binding, and the table afterwards
+   holds that address for that client until the ACK's instant plus the configured lease - which is what the ACK
+   advertises (C07: the lease option is the whole seconds of that duration) *)
+Theorem accepted_ack_is_reserved c t r src dst m o t' f :
+  unique_live (r_t r) t ->
+  accept_request c t r src dst m o = RAcc t' -> r_outs r = [f] -> frame_eqb f (reply_nak c m) = false ->
+  exists lease n, bound_ip (r_t r) (get_duid c (d_chaddr m) (o_cid o)) t = Some lease /\
+    frame_eqb f (reply_lease c gf_dhcpmsg_MsgTypeAck m lease) = true /\ to_uip (c_db c) (Some lease) = Some n /\
+    exists p e, nth_error t' p = Some e /\ e_ip e = n /\ e_duid e = get_duid c (d_chaddr m) (o_cid o) /\
+                e_until e = (of_t f + c_lease c)%Z.
+Proof.
+  intros U H Ho Hnak. unfold accept_request in H. rewrite Ho in H. rewrite Hnak in H. cbn [andb] in H.
+  destruct (classify_request c dst src o) as [desired|]; [|discriminate].
+  destruct (negb (in_managed_range (c_db c) (Some desired))); [discriminate|].
+  set (duid := get_duid c (d_chaddr m) (o_cid o)) in *.
+  destruct (bound_ip (r_t r) duid t) as [lease|] eqn:Eb; [|discriminate].
+  destruct (negb (lease =? desired)); [discriminate|].
+  destruct (t_hold_client (c_db c) (r_t r) (Some lease) duid req_hold_ns t) as [okh t1] eqn:Eh.
+  destruct okh; cbn [negb] in H; [|discriminate].
+  destruct (probe_outcome (r_arp r) (d_chaddr m) lease) as [free cost].
+  destruct free; cbn [negb] in H; [|discriminate].
+  destruct (frame_eqb f (reply_lease c gf_dhcpmsg_MsgTypeAck m lease)) eqn:Ef; cbn [negb] in H; [|discriminate].
+  destruct (of_t f <? r_t r)%Z eqn:Et; [discriminate|].
+  destruct (t_update_client (c_db c) (of_t f) (Some lease) duid (c_lease c) t1) as [ok t2] eqn:Eu.
+  destruct ok; [|discriminate]. injection H as <-.
+  assert (U1 : unique_live (of_t f) t1).
+  { apply unique_live_mono with (now := r_t r); [lia|]. eapply t_hold_unique; eauto. }
+  destruct (to_uip (c_db c) (Some lease)) as [n|] eqn:En.
+  - exists lease, n. repeat split; auto. eapply update_reserves; eauto.
+  - exfalso. pose proof (t_update_spec _ _ _ _ _ _ _ _ U1 Eu) as S. rewrite En in S. destruct S as [S _]. discriminate.
+Qed.
